@@ -48,6 +48,13 @@ def scenarios(draw):
     if draw(st.booleans()):
         handlers.append({'kind': 'create', 'id': 'cr', 'script': [], 'duration': 0})     # (a diff-base exists: not every event is a change)
     peering = draw(st.booleans())
+    if draw(st.integers(0, 3)) == 0:
+        # a synchronous daemon (a thread, which no cancellation can reach): it polls its stop flag and lingers for a while after it
+        # saw it. Until the thread has ended the instance is alive, however often its task is cancelled meanwhile.
+        handlers[0] = {'kind': 'daemon', 'id': 's0', 'sync': True, 'poll': draw(st.sampled_from([0.5, 1.0])),
+                       'linger': draw(st.sampled_from([0.0, 2.5, 6.0, 12.0])), 'labels': draw(flt),
+                       'cancellation_backoff': draw(st.sampled_from([None, 0.5])), 'cancellation_timeout': draw(st.sampled_from([None, 1.0, 4.0]))}
+        peering = peering or draw(st.booleans())
     dts = st.sampled_from([0.0, 0.1, 0.5, 1.0, 3.0, 3.0 - 1e-6, 4.0, 10.0])
     base = cl.env_actions(dts, n_objects=2, with_delete=True, with_recreate=True, with_labels=True)
     extra = [st.builds(lambda o, dt: {'a': 'strip_and_delete', 'obj': o, 'dt': dt}, st.integers(0, 1), dts)]
@@ -69,6 +76,14 @@ def scenarios(draw):
         actions = actions[:pos] + tog + actions[pos:]
         if not any(a['a'] == 'create' and a['obj'] == 0 for a in actions[:pos]):
             actions.insert(0, {'a': 'create', 'obj': 0, 'v': 1, 'dt': draw(dts)})
+    if handlers[0].get('sync') and draw(st.booleans()):
+        # aim at the pause: the daemon killer asks (and cancels) again every second while the operator is paused, the thread outlives
+        # the pause, and the object is seen again (re-listed) when the operator resumes
+        peering = True
+        handlers[0].update(linger=draw(st.sampled_from([6.0, 12.0])), cancellation_timeout=draw(st.sampled_from([1.0, 4.0])), labels=None)
+        actions = [{'a': 'create', 'obj': 0, 'v': 1, 'dt': draw(st.sampled_from([0.5, 2.0]))},
+                   {'a': 'peer_on', 'lifetime': 60, 'dt': draw(st.sampled_from([1.5, 2.5, 3.5, 5.0]))},
+                   {'a': 'peer_off', 'dt': draw(st.sampled_from([0.5, 3.0, 10.0]))}] + actions[:draw(st.integers(0, 6))]
     end = draw(st.sampled_from(['run', 'run', 'stop']))
     spec = {'handlers': handlers, 'settings': {'background.cancellation_polling': 2.0, 'persistence.consistency_timeout': 1.0,
                                                'peering.priority': 10, 'queueing.idle_timeout': draw(st.sampled_from([5.0, 0.5]))}}
@@ -356,6 +371,10 @@ def check(run, res, sc, livelock, t_stop):
             if t_d is not None and c['t0'] > t_d + 5.0 + EPS:
                 res.fail('C09/D6-events-stalled', f'on.event for {c["name"]} rv={c["rv"]} ran at {c["t0"]}, delivered at {t_d}')
                 break
+    if any(h.get('sync') for h in hs.values()):
+        res.label('sync-daemon')
+        if any(c.get('sync') and c.get('flag_seen') is not None for c in calls):
+            res.label('sync-daemon-stopped')
     if forced:
         res.label('forced-deletion')
         nontrivial = True
